@@ -38,7 +38,12 @@ def parse(data, allow_custom=False, interoperability=False, version=None):
     obj = _get_dict(data)
 
     # convert dict to full python-stix2 obj
-    obj = dict_to_stix2(obj, allow_custom, interoperability, version)
+    try:
+        obj = dict_to_stix2(obj, allow_custom, interoperability, version)
+    except RecursionError:
+        # (bundles within bundles, custom values within custom values, ...:
+        # content, not a failure of the interpreter)
+        raise ParseError("Can't parse content which is nested this deeply.")
 
     return obj
 
